@@ -1115,7 +1115,10 @@ func (v *FnV) goStmt(st *State, x *ast.GoStmt) {
 	for _, a := range x.Call.Args {
 		args = append(args, v.expr(st, a))
 	}
-	if lit, ok := unparen(x.Call.Fun).(*ast.FuncLit); ok {
+	if lit, ok := unparen(x.Call.Fun).(*ast.FuncLit); ok && v.e.cs.Funcs[v.e.litName[lit]] != nil {
+		// the goroutine body has a contract of its own (<function>$<k>): it is verified separately
+		v.escapeClosures(st, []Value{v.expr(st, lit)})
+	} else if lit, ok := unparen(x.Call.Fun).(*ast.FuncLit); ok {
 		// The goroutine body is executed once as a TASK on a copy of the state in
 		// which everything shared has been havocked: its panic-freedom and call
 		// obligations then hold for whatever the other goroutines did before it
@@ -1136,6 +1139,7 @@ func (v *FnV) goStmt(st *State, x *ast.GoStmt) {
 	} else {
 		v.abstract(x, "go statement (goroutine body not executed; shared state havocked)")
 	}
+	v.logCall(st, &callInfo{full: "go", args: args}, nil)
 	v.yield(st)
 }
 
